@@ -687,6 +687,27 @@ func c08Run(w *W, c Case) {
 			{Y: 15, M: 12, D: 30, H: 12}, {Y: 15, M: 12, D: 31, H: 23, Mi: 30}, {Y: 18, M: 12, D: 27}, {Y: 18, M: 12, D: 31, H: 23, Mi: 59, S: 59},
 			{Y: 2000, M: 2, D: 29, H: 12}, {Y: 2024, M: 2, D: 29, H: 23, Mi: 1}, {Y: 2023, M: 10, D: 1, H: 8}, {Y: 2020, M: 1, D: 24, H: 23, Mi: 59},
 			{Y: 9, M: 1, D: 14}, {Y: 237, M: 2, D: 11}, {Y: 2033, M: 12, D: 25, H: 1}, {Y: 2024, M: 4, D: 4, H: 15, Mi: 2, S: 3}}
+		// one recorded holiday of each name in use, and the first and last record of the table (whatever indexes a name list
+		// or walks the packed table gets its extreme values here)
+		seen := map[string]bool{}
+		var lastRec *ref.Stamp
+		for y := 2001; y <= 2030; y++ {
+			for e := HolidayUtil.GetHolidaysByYear(y).Front(); e != nil; e = e.Next() {
+				h := e.Value.(*HolidayUtil.Holiday)
+				var hy, hm, hd int
+				if n, _ := fmt.Sscanf(h.GetDay(), "%d-%d-%d", &hy, &hm, &hd); n == 3 && ref.Exists(hy, hm, hd) {
+					st := ref.Stamp{Y: hy, M: hm, D: hd, H: 12}
+					lastRec = &st
+					if !seen[h.GetName()] {
+						seen[h.GetName()] = true
+						fixed = append(fixed, st)
+					}
+				}
+			}
+		}
+		if lastRec != nil {
+			fixed = append(fixed, *lastRec)
+		}
 		for _, st := range fixed {
 			c08Root(w, st, true)
 		}
